@@ -447,6 +447,7 @@ class Interp(object):
             self.set_orders = {}
             sstr._fresh[0] = 0
             sstr.BOUND_ORACLE[0] = self.tight_bound
+            self.options.pop("fs", None)
             for h in self.path_hooks:
                 h()
             outcome = None
